@@ -639,6 +639,10 @@ impl<'data, P: Platform> OutputSections<'data, P> {
         priority: u16,
         min_alignment: Alignment,
     ) -> OutputSectionId {
+        // The primary section is empty and is followed by its secondaries. Give it the largest
+        // alignment of any of them so that no padding ends up between its start and the first
+        // entry.
+        self.bump_min_alignment(primary, min_alignment);
         let key = (primary, priority);
         if let Some(&sid) = self.init_fini_by_priority.get(&key) {
             self.bump_min_alignment(sid, min_alignment);
